@@ -14,7 +14,7 @@
 //! the call returns a value or an error": every call into the crate runs under catch_unwind with the
 //! panic location captured; hostile streams and fixture mutations run in a CHILD PROCESS (this binary
 //! re-executed with `C04-child`) that reports progress per case, so that an abort / stack overflow /
-//! hang (5 s watchdog) is attributed to the case that was running.
+//! hang (watchdog) is attributed to the case that was running.
 
 pub mod child;
 mod containers;
@@ -36,7 +36,10 @@ use rand_chacha::ChaCha8Rng;
 use crate::ctx::Ctx;
 use crate::keys;
 
-pub const WATCHDOG_MS: u128 = 5000;
+/// a case that has not answered after this long counts as hung.  (Generous on purpose: the budget
+/// is wall-clock time and the checks may run on a loaded machine — a 2.5 s case took 7.5 s with
+/// every core busy; a genuine hang is still reported, only later.)
+pub const WATCHDOG_MS: u128 = 60_000;
 
 static LAST_PANIC_LOC: Mutex<String> = Mutex::new(String::new());
 
